@@ -351,6 +351,20 @@ type Function struct {
 
 var _ starlark.Callable = (*Function)(nil)
 
+// Required reports how many positional arguments a call must supply and which keyword-only parameters have no default.
+func (f *Function) Required() (npos int, kwonly []string) {
+	for _, p := range f.params {
+		switch {
+		case p.hasDflt:
+		case p.kwonly:
+			kwonly = append(kwonly, p.name)
+		default:
+			npos++
+		}
+	}
+	return
+}
+
 func (f *Function) Name() string          { return f.name }
 func (f *Function) String() string        { return fmt.Sprintf("<function %s>", f.name) }
 func (f *Function) Type() string          { return "function" }
@@ -367,8 +381,13 @@ func (f *Function) Freeze() {
 		}
 	}
 	// captured variables: free names of the body that resolve in enclosing function blocks
+	// (a file-local variable - bound by load, or by a top-level comprehension - that a function mentions is captured too)
 	for _, n := range f.free {
-		if c := f.closure.lookup(n); c != nil && c.v != nil {
+		if c := f.closure.lookup(n); c != nil {
+			if c.v != nil {
+				c.v.Freeze()
+			}
+		} else if c, ok := f.fc.fileLocals[n]; ok && c.v != nil {
 			c.v.Freeze()
 		}
 	}
